@@ -71,6 +71,12 @@ CHECKS["C15"] = ("exploration",
     "The reference shares the registered rule functions/predicates, the pattern table and the RegexMatch class with the library, nothing of the search.",
     "DESIGN.md 4 (C15)")
 
+CHECKS["C03"] = ("exploration",
+    "Enumeration of every surface form of the frozen relative-day vocabulary x reference-date sweep (thorough: canonical forms over every date of the 28-year cycle, all forms over edge dates; quick: Hypothesis sample biased to edge dates) against a date.toordinal reference model",
+    "Reference-model oracle (stdlib calendar arithmetic, no dateutil) over the product forms x reference times; the thorough tier enumerates the complete 2016-2043 cycle x 3 times of day for one canonical form per concept, so month/year/leap roll-overs are all visited; surface forms are a frozen specification vocabulary.",
+    "Conventions (this/next weekday, EOM/EOY) as the property fixes them; vocabulary limited to notations the patterns define.",
+    "DESIGN.md 4 (C03)")
+
 NOT_YET = "check not built yet in this round (see DESIGN.md section 4 for the planned generated-input check)"
 
 
